@@ -64,7 +64,14 @@ impl XMap {
             }
         }
         if matches!(n, XmlNode::Element(_) | XmlNode::Document(_)) {
-            let kids: Vec<XmlNode> = n.child_nodes().iter().filter(|c| !matches!(c, XmlNode::DocumentType(_))).collect();
+            // the DOM keeps the document type declaration and text nodes without characters (an empty CDATA section);
+            // neither is a node of the query data model: they get no entry, a query that returns one is reported
+            let kids: Vec<XmlNode> = n
+                .child_nodes()
+                .iter()
+                .filter(|c| !matches!(c, XmlNode::DocumentType(_)))
+                .filter(|c| !(k_of(c) == K::Text && c.node_value().ok().flatten().unwrap_or_default().is_empty()))
+                .collect();
             if kids.len() != model.children.len() {
                 return Err(format!(
                     "{} has {} children in the implementation's view, {} in the reference tree",
